@@ -197,6 +197,66 @@ namespace C13
     // r <- y + alpha*A*x  (from_1_to_0 + local apply + sync_0)
     mat_trap.apply(vt, vx, vw1, -2.0);
     out.put("t_Axpy_w2", vt.dot(vw2));
+    // operand aliasing: the four overloads (r, x, y, alpha) document that r may be the same object as y; the type-1 ->
+    // type-0 conversion of y and the sync_0 of r must then still happen exactly once
+    {
+      GlobalSystemVector va = vw1.clone(), vr = vw1.clone();
+      double adiff = 0.0;
+      mat_trap.apply(vr, vx, vw1, -2.0);                       // distinct objects
+      va.copy(vw1);
+      mat_trap.apply(va, vx, va, -2.0);                        // r is y
+      out.put("t_Axpy_alias_w2", va.dot(vw2));
+      va.axpy(vr, -1.0);
+      adiff = Math::max(adiff, double(va.max_abs_element()));
+      va.copy(vw1);
+      // FINDING: on a gate without neighbours (one process) sync_0_async returns an already finished ticket whose wait()
+      // aborts ("ticket was already completed by a wait call"), so the _async overloads are exercised for N > 1 only
+      if(!gate.get_ranks().empty())
+      {
+        auto ticket = mat_trap.apply_async(va, vx, va, -2.0);
+        ticket.wait();
+      }
+      else
+        mat_trap.apply(va, vx, va, -2.0);
+      va.axpy(vr, -1.0);
+      adiff = Math::max(adiff, double(va.max_abs_element()));
+      mat_trap.apply_transposed(vr, vx, vw1, -2.0);
+      out.put("t_ATxpy_w2", vr.dot(vw2));
+      va.copy(vw1);
+      mat_trap.apply_transposed(va, vx, va, -2.0);
+      out.put("t_ATxpy_alias_w2", va.dot(vw2));
+      va.axpy(vr, -1.0);
+      adiff = Math::max(adiff, double(va.max_abs_element()));
+      va.copy(vw1);
+      if(!gate.get_ranks().empty())
+      {
+        auto ticket = mat_trap.apply_transposed_async(va, vx, va, -2.0);
+        ticket.wait();
+      }
+      else
+        mat_trap.apply_transposed(va, vx, va, -2.0);
+      va.axpy(vr, -1.0);
+      adiff = Math::max(adiff, double(va.max_abs_element()));
+      out.put("x_alias_apply_diff", adiff);
+      // Global::Vector members with aliased operands
+      va.copy(vx);
+      va.copy(va);
+      va.axpy(va, 0.5);
+      va.scale(va, 2.0);
+      va.component_product(va, vw1);
+      out.put("x_valias_w2", va.dot(vw2));
+      out.put("t_valias_dot", va.dot(va));   // too large for exact double sums
+      vr.scale(vx, 3.0);
+      GlobalSystemVector vq = vr.clone();
+      vq.component_product(vr, vw1);
+      vq.axpy(va, -1.0);
+      out.put("x_valias_diff", vq.max_abs_element());
+      va.copy(vx);
+      va.sync_1();
+      va.sync_1();
+      va.axpy(vx, -1.0);
+      out.put("x_sync1_twice_diff", va.max_abs_element());
+    }
     // global dot products / norms of type-1 vectors
     out.put("x_x_x", vx.dot(vx));
     out.put("x_x_w2", vx.dot(vw2));
